@@ -3,12 +3,16 @@ package main
 import (
 	"fmt"
 	"os"
+	"runtime/debug"
 	"runtime/pprof"
 
 	"verif/scen"
 )
 
 func main() {
+	// keep the heap in check: the explorer allocates a lot of short-lived application state
+	debug.SetGCPercent(50)
+	debug.SetMemoryLimit(24 << 30)
 	if len(os.Args) < 2 {
 		fmt.Fprintln(os.Stderr, "usage: vcheck run <id> <quick|thorough> | replay <file> | list")
 		os.Exit(2)
